@@ -114,7 +114,11 @@ func TestC22RetransmissionStops(t *testing.T) {
 						for countOpeningMsgs(n, ts.SwapId) == before && time.Now().Before(dl) {
 							time.Sleep(200 * time.Microsecond)
 						}
-						alivePerSwap[ts.SwapId]++
+						// retransmitters of a dead process do not exist in reality; in the simulation their
+						// goroutine may take the one already-due tick the property allows after Stop
+						if ts.Epoch == n.Proc.Epoch {
+							alivePerSwap[ts.SwapId]++
+						}
 					}
 					if waiting {
 						ticksWhileWaiting++
